@@ -615,7 +615,15 @@ pub fn generate(seed: u64, knobs: &Knobs) -> C10Scenario {
             71..=84 => {
                 // configuration change
                 let mut parts = world.config.clone();
-                match rh.below(7) {
+                match rh.below(8) {
+                    7 => {
+                        // switch the bundle require mode (nothing else changes)
+                        match parts.bundle.as_deref() {
+                            Some("path") => parts.bundle = Some("luau".to_owned()),
+                            Some("luau") => parts.bundle = Some("path".to_owned()),
+                            _ => parts.rules = gen::gen_rules(&mut rh),
+                        }
+                    }
                     0 => parts.rules = gen::gen_rules(&mut rh),
                     1 => {
                         parts.generator = if rh.chance(1, 4) {
